@@ -55,8 +55,8 @@ def nt_c18(d):
     esc = len(d['text']) + d['text'].count(34)
     return d['has'] == 1 and (34 in d['text'] or abs(len(d['out']) - 2 - 255 - len(str(d['code'])) - 3) <= 3)
 
-def driver(rep, exe, args, what):
-    d = lib.run_driver(exe, args, timeout=900)
+def driver(rep, exe, args, what, env=None):
+    d = lib.run_driver(exe, args, timeout=900, env=env)
     if d['rc'] != 0 or d['timeout']:
         rep.violation('driver-failure', dict(what=what, rc=d['rc'], timeout=d['timeout'], stderr=d['stderr'].decode(errors='replace')[-3000:]))
         return None
@@ -97,6 +97,12 @@ def run_c10(tier):
             info = driver(rep, exe, ['walk', lib.seed() * 31 + c, steps if cfg == 'default' else steps // 4, c, w + '/x.ndjson'], 'walk %s cap %d' % (cfg, c))
             if info is not None:
                 validate(rep, 'TVErrQueue', w + '/x.ndjson', 'walk-%s-cap%d' % (cfg, c), nt_c10)
+    # the same random histories with a write callback that reports 0 bytes written (what the transport says must not
+    # change what happens to the popped entry and its text)
+    exe = lib.build('drv_errq', ['drv_errq.c'], config='default', link=WRAP)
+    info = driver(rep, exe, ['walk', lib.seed() * 31 + 9, 8000 if tier == 'quick' else 60000, 3, w + '/x.ndjson'], 'walk default cap 3, write returns 0', env={'DRV_WRITE_ZERO': '1'})
+    if info is not None:
+        validate(rep, 'TVErrQueue', w + '/x.ndjson', 'walk-write0-cap3', nt_c10)
     composition.validate(rep, 'C10', tier)
     rep.cov['exhaustive'] = True
     shutil.rmtree(w, ignore_errors=True)
